@@ -55,6 +55,38 @@ fn open_state(ad: &Ad) -> Option<String> {
     }
 }
 
+/// A block whose bytes do hash to its name but whose parent list holds an entry that is not a block identifier
+/// (crafted from a real block): it can never be causally complete, so it must not take effect - on reopening and on
+/// an incremental refresh of a live replica.
+pub fn crafted_block() {
+    use melda::melda::DeltaId;
+    use melda::verif::utils::digest_string;
+    let (ad, _s1, s2, _i1, items2) = two_commits();
+    let bk = items2.iter().find(|k| k.ends_with(".delta")).expect("second block").clone();
+    let id = DeltaId::from(bk.strip_suffix(".delta").unwrap()).expect("block id");
+    let bytes = ad.read().unwrap().read_object(&bk, 0, 0).unwrap();
+    let mut j: serde_json::Value = serde_json::from_slice(&bytes).expect("block is JSON");
+    let extra = match sym::choose(3) {
+        0 => serde_json::Value::from(17),
+        1 => serde_json::Value::from("zz"),
+        _ => serde_json::Value::Null,
+    };
+    j.get_mut("p").and_then(|p| p.as_array_mut()).expect("parent list").push(extra);
+    // some other difference so that the crafted block is not the original one
+    j.as_object_mut().unwrap().insert("i".to_string(), serde_json::json!({"note": "crafted"}));
+    let text = serde_json::to_string(&j).unwrap();
+    let name = format!("{}-{}.delta", id.index(), digest_string(&text));
+    let mut live = Melda::new(ad.clone()).expect("Melda::new");
+    ad.write().unwrap().write_object(&name, text.as_bytes()).unwrap();
+    if let Some(s) = open_state(&ad) {
+        assert!(s == s2, "a block with an unresolvable parent entry took effect on reopening");
+    }
+    if live.refresh().is_ok() {
+        assert!(state(&live) == s2, "a block with an unresolvable parent entry took effect on refresh");
+    }
+    sym::reach(1);
+}
+
 /// a junk item with a block / pack extension and a symbolic ASCII name is injected. params: [max digits]
 pub fn junk_item() {
     let maxd = sym::param(0) as usize;
